@@ -8,7 +8,7 @@
       FileStoragePacker.pack  create Data.fs.pack; writes to Data.fs.pack …  (copyToPacktime, copyRest)
                               flush, close
       FileStorage.pack        remove Data.fs.index            (`_clear_index`: the saved index describes the
-                                                              unpacked file — dd8808d)
+                                                              unpacked file)
                               link Data.fs → Data.fs.old      (os.link; os.rename when links are unsupported)
                               replace Data.fs.pack → Data.fs  (os.replace)
                               [remove Data.fs.old]            (pack_keep_old = False)
@@ -181,6 +181,10 @@ structure Run where
 deriving Repr
 
 def Run.trace (r : Run) : List Ev := r.preA ++ swapEvs r.links ++ r.postB
+
+/-- the `os.link` call of the swap succeeded (hard links supported, no Data.fs.old in the way);
+    otherwise the code falls back to the two renames -/
+def LinksSupported (r : Run) : Prop := r.links = true
 
 /-- the cut between the two directory operations of the swap -/
 def Run.midSwapCut (r : Run) : Nat := r.preA.length + 1
